@@ -24,7 +24,13 @@ class C06(object):
             "variables, independent and deterministic ones; lautum information. Checked: value vs the model (Float), "
             "value on (p,p), swapped arguments, infinite exactly on support violation, JSD <= H(w), Pinsker, "
             "maxcorr in [0,1] and 0 iff independent, EMD(categorical) = TV. Non-trivial = both supports have >= 2 outcomes "
-            "and are not equal as stored lists")
+            "and are not equal as stored lists. Kind `pmfform`: the pmf-level entry points of dit.divergences.pmf on 2..4 "
+            "aligned probability vectors of length 1..5 (given as one 2-d array, nested lists or a list of arrays): JSD with "
+            "weights handed over as None / normalised or unnormalised floats / integer counts, in a list, tuple or ndarray "
+            "(float64, float32, int64, int32), zero weights included - value vs the definition with the normalised "
+            "weights, 0 <= JSD <= H(w), reordering, invariance under rescaling / re-typing the weights, and agreement with "
+            "the Distribution form; TV, BC, Hellinger, cross / relative entropy, Chernoff, categorical EMD and the "
+            "two-argument JSD on the first two vectors")
     tolerances = {'closed forms': 'atol 1e-9', 'chernoff (scipy bounded scalar minimiser, xatol 1e-5)': '1e-4 relative', 'emd (LP)': '1e-7',
                   'maximum correlation': '|sigma2^2 is a root of the exact characteristic polynomial| <= 1e-8'}
     exhaustive = {}
@@ -81,6 +87,9 @@ class C06(object):
                 c['rvs'] = [g1, g2] if g2 else [[0], [1]]
                 c['crvs'] = []    # the conditional variant has no documented definition; only L(X:Y) is checked
             yield c
+        # pmf-level entry points (appended after the main stream so that the cases above do not depend on them)
+        for _ in range(70 if tier == 'quick' else 6000):
+            yield self.gen_pmfform(rng)
 
     def full_space(self, a, b):
         alph = [sorted(set(x) | set(y)) for x, y in zip(a['alphabets'], b['alphabets'])]
@@ -136,6 +145,27 @@ class C06(object):
         b['alphabets'] = [sorted(set(o[i] for o in uniq)) for i in range(n)]
         b['space'] = None
         return b
+
+    WFORMS = ['none', 'norm-list', 'norm-array', 'float-list', 'float-tuple', 'float-array', 'float32-array',
+              'int-list', 'int-tuple', 'int-array', 'int32-array']
+
+    def gen_pmfform(self, rng):
+        k = rng.randint(1, 5)
+        n = rng.randint(2, 4)
+        rows = []
+        for i in range(n):
+            if rows and rng.random() < 0.15:
+                rows.append(list(rng.choice(rows)))           # a repeated member of the family
+            else:
+                rows.append([str(v) for v in gen.rand_prob_vector(rng, k, rng.choice(['dyadic', 'small', 'uneven']))[0]])
+        wc = [rng.choice([0, 1, 1, 2, 3, 4, 5, 7, 12]) for _ in range(n)]
+        if rng.random() < 0.15:
+            wc = [wc[0] or 1] * n                            # equal counts: uniform weights, unnormalised
+        if sum(wc) == 0:
+            wc[rng.randrange(n)] = 1
+        return {'kind': 'pmfform', 'pm': rows, 'wc': wc, 'wform': rng.choice(self.WFORMS),
+                'scale': rng.choice(['1', '1/2', '1/4', '2', '3']),
+                'pform': rng.choice(['array', 'lists', 'rows'])}
 
     def gen_maxcorr(self, rng, klass):
         style = rng.choice(['random', 'independent', 'deterministic', 'single-symbol', 'random3'])
@@ -372,6 +402,136 @@ class C06(object):
         if not self.agree(val, mo):
             r.mismatch = 'jsd: impl %r model %r' % (val, mo)
 
+    @staticmethod
+    def weights_arg(wform, wc, scale):
+        '''The weights as the caller hands them over, and the exact normalised weights they stand for.'''
+        n = len(wc)
+        if wform == 'none':
+            return None, [Fraction(1, n)] * n
+        tot = sum(wc)
+        exact = [Fraction(c, tot) for c in wc]
+        kindw, cont = wform.split('-')
+        if kindw == 'norm':
+            vals = [float(x) for x in exact]
+        elif kindw in ('float', 'float32'):
+            vals = [float(c * scale) for c in wc]          # dyadic multiples of small counts: exact in float32 too
+        else:
+            vals = [int(c) for c in wc]
+        if cont == 'list':
+            return list(vals), exact
+        if cont == 'tuple':
+            return tuple(vals), exact
+        dt = {'norm': np.float64, 'float': np.float64, 'float32': np.float32, 'int': np.int64, 'int32': np.int32}[kindw]
+        return np.array(vals, dtype=dt), exact
+
+    @staticmethod
+    def pmfs_arg(pform, pm):
+        if pform == 'array':
+            return np.array(pm, dtype=float)
+        if pform == 'lists':
+            return [list(row) for row in pm]
+        return [np.array(row, dtype=float) for row in pm]
+
+    def run_pmfform(self, case, drv, r):
+        dit = import_dit()
+        import dit.divergences.pmf as P
+        from dit.divergences import jensen_shannon_divergence as jsd_dist
+        r.site = 'dit.divergences.pmf'
+        rows = [[Fraction(v) for v in row] for row in case['pm']]
+        pm = [[float(v) for v in row] for row in rows]
+        n, k = len(pm), len(pm[0])
+        wform, wc, scale = case['wform'], case['wc'], Fraction(case['scale'])
+        warg, w = self.weights_arg(wform, wc, scale)
+        wf = [float(x) for x in w]
+        unnorm = warg is not None and sum(Fraction(float(x)) for x in warg) != 1
+        r.features += ['weights=%s' % wform, 'unnormalised=%s' % unnorm, 'pmfs=%s' % case['pform'], 'n=%d' % n,
+                       'zero-weight=%s' % (0 in wc and wform != 'none')]
+        r.nontrivial = k >= 2 and len(set(tuple(row) for row in rows)) >= 2 and len([x for x in w if x > 0]) >= 2
+        H = lambda v: -sum(x * math.log2(x) for x in v if x > 0)
+        mix = [sum(wi * row[j] for wi, row in zip(wf, pm)) for j in range(k)]
+        ref = H(mix) - sum(wi * H(row) for wi, row in zip(wf, pm))
+        hw = H(wf)
+        descr = 'pmf-form JSD of %s with weights %r (%s)' % (case['pm'], warg if warg is None else list(warg), wform)
+        with np.errstate(all='ignore'):
+            val = float(P.jensen_shannon_divergence(self.pmfs_arg(case['pform'], pm), warg))
+            mo = bits2f(drv.call('jsdf', [[[f2bits(x) for x in row] for row in pm], [f2bits(x) for x in wf]]))
+            r.detail = {'got': val, 'ref': ref, 'model': mo, 'H(w)': hw, 'normalised weights': [str(x) for x in w]}
+            if not self.agree(val, ref):
+                r.oracle_fail = '%s = %r, but H(sum w_i P_i) - sum w_i H(P_i) with the normalised weights %s is %r' % (
+                    descr, val, [str(x) for x in w], ref)
+            elif val < -1e-12 or val > hw + 1e-9:
+                r.oracle_fail = '%s = %r outside [0, H(w) = %r]' % (descr, val, hw)
+            if not self.agree(val, mo):
+                r.mismatch = 'pmf-form jsd: impl %r model %r' % (val, mo)
+            if r.oracle_fail:
+                return
+            # the (pmf, weight) pairs in another order
+            perm = list(range(1, n)) + [0]
+            warg2, _ = self.weights_arg(wform, [wc[i] for i in perm], scale)
+            val2 = float(P.jensen_shannon_divergence(self.pmfs_arg(case['pform'], [pm[i] for i in perm]), warg2))
+            if not self.agree(val, val2):
+                r.oracle_fail = '%s changes when the (pmf, weight) pairs are reordered: %r vs %r' % (descr, val, val2)
+                return
+            # the same weights handed over in every other shape: only their ratios matter
+            if wform != 'none':
+                for other in self.WFORMS[1:]:
+                    if other == wform:
+                        continue
+                    wo, _ = self.weights_arg(other, wc, scale)
+                    vo = float(P.jensen_shannon_divergence(self.pmfs_arg(case['pform'], pm), wo))
+                    if not self.agree(vo, ref):
+                        r.oracle_fail = 'pmf-form JSD of %s with the weights %s given as %r (%s) = %r, definition gives %r' % (
+                            case['pm'], [str(x) for x in w], list(wo), other, vo, ref)
+                        return
+            # the Distribution form on the same family (weights must be normalised there; positive weights only,
+            # exactly representable so that the validation of the mixture accepts them)
+            if all(x > 0 and (x.denominator & (x.denominator - 1)) == 0 for x in w):
+                ds = [dit.Distribution([(j,) for j in range(k)], list(row), trim=False) for row in pm]
+                vd = float(jsd_dist(ds, None if wform == 'none' else wf))
+                if not self.agree(val, vd):
+                    r.oracle_fail = '%s = %r but the Distribution form gives %r' % (descr, val, vd)
+                    return
+            # pair functions on the first two vectors
+            p, qv = np.array(pm[0]), np.array(pm[1])
+            pairs = list(zip(rows[0], rows[1]))
+            fl = [(float(a), float(b)) for a, b in pairs]
+            supp_ok = all(not (a > 0 and b == 0) for a, b in pairs)
+            refs = {'cross_entropy': -sum(a * math.log2(b) for a, b in fl if a > 0) if supp_ok else math.inf,
+                    'relative_entropy': sum(a * math.log2(a / b) for a, b in fl if a > 0) if supp_ok else math.inf,
+                    'variational_distance': sum(abs(a - b) for a, b in fl) / 2,
+                    'bhattacharyya_coefficient': sum(math.sqrt(a * b) for a, b in fl)}
+            refs['hellinger_distance'] = math.sqrt(max(0.0, 1 - refs['bhattacharyya_coefficient']))
+            refs['earth_movers_distance'] = refs['variational_distance']      # 0-1 metric: the mass that must move
+            m2 = [(a + b) / 2 for a, b in fl]
+            refs['jensen_shannon_divergence2'] = H(m2) - (H(pm[0]) + H(pm[1])) / 2
+            mname = {'cross_entropy': 'cross_entropy', 'relative_entropy': 'kl', 'variational_distance': 'tv',
+                     'bhattacharyya_coefficient': 'bc', 'hellinger_distance': 'hellinger', 'earth_movers_distance': 'tv'}
+            tols = {'hellinger_distance': 1e-7, 'earth_movers_distance': 1e-7}
+            got = {}
+            for name in refs:
+                got[name] = float(getattr(P, name)(p.copy(), qv.copy()))
+                t = tols.get(name, 1e-9)
+                if not self.agree(got[name], refs[name], t):
+                    r.oracle_fail = 'pmf-form %s(%s, %s) = %r but its definition gives %r' % (
+                        name, case['pm'][0], case['pm'][1], got[name], refs[name])
+                    break
+                if name in mname and not r.mismatch:
+                    mv = self.model_div(drv, mname[name], pairs)
+                    if not self.agree(got[name], mv, t):
+                        r.mismatch = 'pmf-form %s: impl %r model %r' % (name, got[name], mv)
+            r.detail.update({'pair got': got, 'pair ref': refs})
+            if r.oracle_fail:
+                return
+            ci = float(P.chernoff_information(p.copy(), qv.copy()))
+            grid = [i / 200.0 for i in range(201)]
+            vals = [sum(a ** al * b ** (1 - al) for a, b in fl if a > 0 and b > 0) for al in grid]
+            refci = -math.log2(min(vals)) if min(vals) > 0 else math.inf
+            if math.isinf(refci) or math.isinf(ci):
+                if ci != refci:
+                    r.oracle_fail = 'pmf-form Chernoff information %r, definition gives %r' % (ci, refci)
+            elif not (ci >= refci - 1e-4 * max(1.0, refci) and ci <= refci + 1e-3):
+                r.oracle_fail = 'pmf-form Chernoff information %r, definition (grid minimum) about %r' % (ci, refci)
+
     def run_restricted(self, case, drv, r):
         import dit.divergences as D
         klass, (da, db), (ta, tb) = self.tables(case)
@@ -512,6 +672,14 @@ class C06(object):
             r.oracle_fail = 'maximum correlation %r, variables independent = %s' % (rho, indep)
         elif abs(rho - ref) > 1e-7:
             r.oracle_fail = 'maximum correlation %r, second singular value of P/sqrt(pX pY) is %r' % (rho, ref)
+        else:
+            # the pmf-level entry point on the joint matrix itself (empty rows / columns included)
+            from dit.divergences.pmf import maximum_correlation as maxcorr_pmf
+            with np.errstate(all='ignore'):
+                rho_p = float(maxcorr_pmf(np.array([[float(v) for v in row] for row in P])))
+            if abs(rho_p - ref) > 1e-7:
+                r.oracle_fail = 'pmf-form maximum correlation of the joint matrix %s is %r, second singular value of P/sqrt(pX pY) is %r' % (
+                    case['P'], rho_p, ref)
 
     @staticmethod
     def svd_ref(P):
